@@ -264,18 +264,26 @@ def split_index(t):
 
 
 def permuter_names(ctx, m):
-    """Names of the methods that reorder the Ritz arrays and the flags coherently (checked by coherent_permutation)."""
+    """Names of the methods that reorder the result arrays: they replace, by swap with a local copy, the flags or an array
+    the accessors read (whether they do so coherently is decided by coherent_permutation)."""
+    acc_reads = set()
+    for an in ('eigenvalues', 'eigenvectors'):
+        for fn in ctx.F.by_record[m.record].get(an, []):
+            for p in ctx.E.may_read(fn):
+                if p:
+                    acc_reads.add(p[0])
+    watched = acc_reads | {m.flag}
     out = set()
     for name, fn in m.named():
         if fn.d.get('ctor') or fn.d.get('dtor'):
             continue
         w = ctx.E.of(fn)
-        direct_flag_writes = [a for a in w.accesses if a.path == (m.flag,) and a.mode == 'w']
-        if direct_flag_writes and not m.whole_flag_assign(fn):
-            # writes the flags other than by a comparison: candidate permuter (swap with a permuted copy)
-            kinds = set(fn.nodes[a.node].get('callee') for a in direct_flag_writes)
-            if kinds <= {'swap'}:
-                out.add(name)
+        direct = [a for a in w.accesses if a.mode == 'w' and a.path and a.path[0] in watched and len(a.path) == 1]
+        if not direct or m.whole_flag_assign(fn):
+            continue
+        kinds = set(fn.nodes[a.node].get('callee') for a in direct)
+        if kinds <= {'swap'}:
+            out.add(name)
     return out
 
 
